@@ -427,6 +427,11 @@ def sign_tensor_strategy(cfg):
       col = [float(F32(v * (mag if kind != "codes" else 1.0))) for v in vals]
       if all(v == 0.0 for v in col):
         col[0] = float(F32(mag))
+      if kind != "codes" and draw(st.booleans()):
+        # an element within 2^-8 of the channel maximum from 0
+        big = int(np.argmax(np.abs(col)))
+        i = (big + 1 + draw(st.integers(0, R - 2))) % R
+        col[i] = float(F32(draw(st.sampled_from([1.0, -1.0])) * abs(col[big]) * 2.0 ** -8))
       cols.append(col)
     xs = [cols[ch][r] for r in range(R) for ch in range(C)]
     return {"shape": shape, "xs": xs, "zero_channel": zero_ch}
@@ -436,9 +441,62 @@ def sign_tensor_strategy(cfg):
 def sign_walk(cfg):
   a = cfg["kw"].get("alpha")
   s = 1.0 if (a is None or isinstance(a, str)) else float(a)
-  col0 = [-1.5 * s, -s, -0.4 * s, -0.05 * s, 0.0, 0.02 * s, 0.1 * s, 0.3 * s, s, 2 * s]
+  col0 = [-1.5 * s, -s, -0.4 * s, -0.05 * s, 0.0, 0.004 * s, 0.02 * s, 0.1 * s, 0.3 * s, s, 2 * s]
   col1 = [0.25 * v + 0.01 for v in col0]
   xs = []
   for r in range(len(col0)):
     xs += [float(F32(col0[r])), float(F32(col1[r]))]
   return {"shape": [len(col0), 2], "xs": xs, "zero_channel": False}
+
+
+# ---------------------------------------------------------------------------
+# fixed point with a data-dependent scale (alpha = 'auto' / 'auto_po2')
+
+
+def auto_cfgs(tier):
+  cfgs = []
+  for cls in ("quantized_bits", "quantized_linear"):
+    for b in ([2, 3, 4, 6, 8] if tier == "quick" else [2, 3, 4, 5, 6, 8]):
+      for i in (0, 1):
+        for a in ("auto", "auto_po2"):
+          cfgs.append({"cls": cls, "kw": {"bits": b, "integer": i, "alpha": a}})
+  return cfgs
+
+
+def build_auto(cfg, sr):
+  from qkeras import quantizers as Q  # pylint: disable=g-import-not-at-top
+  return getattr(Q, cfg["cls"])(use_stochastic_rounding=bool(sr), **cfg["kw"])
+
+
+def auto_tensor_strategy(cfg):
+  """[R, C] (or [R1, R2, C]) tensors, >= 4 rows per channel, values spread over
+  the channel magnitude so that most elements sit strictly between two codes."""
+  from hypothesis import strategies as st  # pylint: disable=g-import-not-at-top
+
+  @st.composite
+  def t(draw):
+    shape = draw(st.sampled_from([[4, 1], [6, 2], [5, 3], [8, 2], [2, 3, 2], [2, 2, 2, 2]]))
+    C = shape[-1]
+    R = int(np.prod(shape[:-1]))
+    cols = []
+    for _ in range(C):
+      mag = 2.0 ** draw(st.integers(-4, 3))
+      vals = draw(st.lists(st.one_of(st.floats(-1.0, 1.0, width=32),
+                                     st.sampled_from([0.0, 1.0, -1.0, 0.5, 0.3, -0.7])),
+                           min_size=R, max_size=R))
+      col = [float(F32(v * mag)) for v in vals]
+      if max(abs(v) for v in col) < mag / 8:
+        col[0] = float(F32(mag))
+      cols.append(col)
+    xs = [cols[ch][r] for r in range(R) for ch in range(C)]
+    return {"shape": shape, "xs": xs}
+  return t()
+
+
+def auto_walk(cfg):
+  col0 = [-1.0, -0.83, -0.5, -0.31, -0.07, 0.0, 0.04, 0.21, 0.47, 0.66, 0.9, 1.0]
+  col1 = [0.37 * v + 0.011 for v in col0]
+  xs = []
+  for r in range(len(col0)):
+    xs += [float(F32(col0[r])), float(F32(col1[r]))]
+  return {"shape": [len(col0), 2], "xs": xs}
